@@ -714,6 +714,13 @@ pub fn agg_pool(cfg: &TableCfg, order_insensitive: bool, p: &str) -> Vec<String>
         pool.push(format!("MAX({}d)", p));
         pool.push("COUNT(DISTINCT d)".to_owned());
     }
+    // aggregates over expressions rather than plain columns
+    pool.push(format!("SUM({}n * 2)", p));
+    pool.push(format!("MAX({}n + 1)", p));
+    pool.push(format!("MIN(abs({}n))", p));
+    pool.push(format!("AVG({}r * 2.0)", p));
+    pool.push(format!("SUM(CASE WHEN {}n > 0 THEN 1 ELSE 0 END)", p));
+    pool.push(format!("COUNT(*) + SUM({}n)", p));
     // arithmetic wrapped around numeric aggregates ("an arithmetic wrapper around an aggregate applied to that aggregate's value")
     for (agg, wrap) in [
         ("COUNT(*)", "+ 1"),
